@@ -574,7 +574,73 @@ def _is_zero_init(e):
     return isinstance(e, ast.Call) and ends(attr_chain(e.func), "zeros") and e.args and dump(e.args[0]) in ("1", "(1,)", "[1]")
 
 
+def _num_eval(e: ast.AST, sym):
+    """numeric evaluation of a length formula; `sym(text)` gives the value of leaf expressions"""
+    import math
+    t = dump(e)
+    v = sym(t)
+    if v is not None:
+        return v
+    if isinstance(e, ast.Constant) and isinstance(e.value, (int, float)):
+        return e.value
+    if isinstance(e, ast.BinOp):
+        a, b = _num_eval(e.left, sym), _num_eval(e.right, sym)
+        return {ast.Add: a + b, ast.Sub: a - b, ast.Mult: a * b, ast.Div: a / b if b else float("nan"), ast.FloorDiv: a // b if b else float("nan"), ast.Mod: a % b if b else float("nan")}[type(e.op)]
+    if isinstance(e, ast.Call):
+        ch = attr_chain(e.func) or ""
+        args = [_num_eval(a, sym) for a in e.args]
+        if ch in ("int",):
+            return int(args[0])
+        if ch in ("np.lcm", "math.lcm", "numpy.lcm"):
+            return math.lcm(int(args[0]), int(args[1]))
+        if ch in ("np.gcd", "math.gcd", "numpy.gcd"):
+            return math.gcd(int(args[0]), int(args[1]))
+        if ch in ("np.ceil", "math.ceil", "torch.ceil"):
+            return math.ceil(args[0])
+        if ch in ("np.floor", "math.floor"):
+            return math.floor(args[0])
+        if ch in ("max", "min"):
+            return max(args) if ch == "max" else min(args)
+    raise ValueError(f"not a length formula: {t[:60]}")
+
+
+def r3b_shared_len(repo: Repo, rep):
+    import math
+    R = rep.rule("R-C16-3b", "DeepONetDataset.__len__ is a multiple of the common period of the two wrap-around window sequences "
+                 "(period per axis = N / gcd(N, batch_size)), by finite instantiation", floor=1,
+                 why="a shorter epoch stops before the cyclic windows have returned to their start: rows / pairs that the full period presents are skipped")
+    ci = repo.cls(f"{DDL}.DeepONetDataset")
+    ln = ci.methods.get("__len__")
+    if ln is None:
+        raise AnalysisError("DeepONetDataset.__len__ vanished")
+    rep.saw(ln)
+    for p in paths(ln.node, expand_self=False):
+        if p.ret is RAISE or p.ret is None:
+            continue
+        bad, n = [], 0
+        try:
+            for Nb in (2, 3, 4, 6):
+                for bb in (1, 2, 3, 4):
+                    for Nt in (3, 5, 6):
+                        for tb in (2, 3, 4):
+                            vals = {"len(self.branch_data_points)": Nb, "self.branch_batch_size": bb, "len(self.trunk_data_points)": Nt, "self.trunk_batch_size": tb}
+                            got = _num_eval(p.ret, lambda t: vals.get(t))
+                            pb, pt = Nb // math.gcd(Nb, bb), Nt // math.gcd(Nt, tb)
+                            want = math.lcm(pb, pt)
+                            n += 1
+                            if not (got >= want and got % want == 0):
+                                bad.append((Nb, bb, Nt, tb, got, want))
+        except ValueError as err:
+            rep.undecided(R, ln.site(), ln.fq, "length formula evaluable", str(err))
+            continue
+        w = bad[0] if bad else None
+        rep.check(R, not bad, ln.site(p.ret_node), ln.fq, "len % lcm(N_b/gcd(N_b,b_b), N_t/gcd(N_t,b_t)) == 0 on the grid",
+                  f"fails for {len(bad)} of {n} instantiations, e.g. N_b={w[0]}, b_b={w[1]}, N_t={w[2]}, b_t={w[3]}: len={w[4]}, common period={w[5]}" if w else f"{n} instantiations",
+                  "len formula: " + dump(p.ret)[:120])
+
+
 def run(repo: Repo, rep):
+    r3b_shared_len(repo, rep)
     r1_points_dataset(repo, rep)
     r2_shuffle_coupling(repo, rep)
     r2b_windows_unique(repo, rep)
